@@ -237,6 +237,8 @@ def run(tier: str) -> int:
         ck.add(l, im, nontrivial=True, tag=l.split(" ", 1)[0])
     __import__('srctie_c18').add_src_c18(ck, ['hash_deterministic', 'head_content'])   # source tie: op srcc18 (SHA-1 = Model/Sha1.lean)
     ck.extra_cov["protocol_per_instance_scenarios"] = __import__("flexhist").oracle(ck)
+    # the same document (and documents sharing a component that hands back a stored tag) rendered again gives the same bytes
+    ck.extra_cov["repeat_render_cases"] = __import__("props.c11", fromlist=["repeat_render_oracle"]).repeat_render_oracle(ck)
     ck.correspond(holds=False)
     if ck.driver is None:
         return ck.finish()
